@@ -5,8 +5,9 @@ import common
 PROPS = "RotoV.Props.C06"
 MODULES = [
     "RotoV.Lemmas.Lexer", "RotoV.Lemmas.LexerBasics", "RotoV.Lemmas.LexerRecognisers",
-    "RotoV.Lemmas.LexerDriver", "RotoV.Lemmas.TypeCycle",
+    "RotoV.Lemmas.LexerDriver", "RotoV.Lemmas.TypeCycle", "RotoV.Lemmas.Unify",
     "RotoV.Model.Lexer", "RotoV.Model.LexerBase", "RotoV.Model.TypeCycle",
+    "RotoV.Model.Unify", "RotoV.Model.UnifyBase",
 ]
 
 
@@ -19,7 +20,7 @@ def search(ctx):
 
 
 def run(ctx):
-    ctx.extract(["lextables"])
+    ctx.extract(["lextables", "unifyfacts"])
     ctx.prove(PROPS, extra_modules=MODULES)
     if ctx.build_harness("c06"):
         ctx.harness("c06", ["run", ctx.seed, ctx.tier], timeout=3000)
